@@ -12,6 +12,7 @@ PROP = 'C12'
 QUICK = (256, 80, 60.0)
 THOROUGH = (1600, 150, 840.0)
 boot, execute = ig.boot, ig.execute
+shrink_plan = ig.shrink_plan
 SHRINK_LISTS, SHRINK_DICTS = ig.SHRINK_LISTS, ig.SHRINK_DICTS
 
 PATTERNS = [r'^a\.', 'cpu', r'\.b$', '^$', '.*', 'x+y', '[0-9]+', '(unclosed', '*bad', r'^sys\.', 'é', r'\.\.',
